@@ -83,7 +83,9 @@ def gen_config(rng):
         rc = None if shape[r] else ("S" if share and rng.random() < 0.5 else rng.choice([None, tok]))
         tok += 1
         roots.append({"charge": rc, "pos": [rfloat(rng) for _ in range(dim)], "children": kids})
-    return {"levels": set_levels, "per": set_per, "dim": dim, "roots": roots, "consistent": consistent}
+    # verbosity is a legitimate dimension of use (`-vv`): the handler caches `isEnabledFor(DEBUG)` and takes other code paths then
+    debug = rng.random() < 0.3
+    return {"levels": set_levels, "per": set_per, "dim": dim, "roots": roots, "consistent": consistent, "debug": debug}
 
 
 def init_line(cfg):
@@ -118,6 +120,15 @@ class Real:
         setting.number_of_root_nodes = len(cfg["roots"])
         setting.number_of_nodes_per_root_node = cfg["per"]
         self.setting = setting
+        self._log_state = None
+        if cfg.get("debug"):
+            import logging
+            lg = logging.getLogger("jellyfysh")
+            self._log_state = (logging.root.manager.disable, lg.level, lg.propagate, list(lg.handlers))
+            logging.disable(logging.NOTSET)
+            lg.setLevel(logging.DEBUG)
+            lg.propagate = False
+            lg.handlers = [logging.NullHandler()]
         self.charge_tok = {}
         shared = {"e": 1.0}
         self.keep = [shared]
@@ -144,6 +155,14 @@ class Real:
 
     def close(self):
         self.setting.reset()
+        if self._log_state is not None:
+            import logging
+            lg = logging.getLogger("jellyfysh")
+            logging.disable(self._log_state[0])
+            lg.setLevel(self._log_state[1])
+            lg.propagate = self._log_state[2]
+            lg.handlers = self._log_state[3]
+            self._log_state = None
 
     # ---- snapshots -------------------------------------------------------------------------
     def ref(self, o):
